@@ -752,6 +752,12 @@ func (w *poolWorld) doState(id int, st connectivity.State, pubsBefore int) {
 	if !w.classify(th, "state report", false) {
 		return
 	}
+	if slot != nil && pend == nil && slot.refreshing && st == connectivity.Idle && sc.opConnect == 0 {
+		// C07: "the old connection keeps serving until the replacement is READY" - an IDLE connection
+		// serves again only if the balancer asks it to connect
+		w.violate("C07", "C07.T5", "old connection of a refresh in progress went IDLE and was not asked to reconnect",
+			fmt.Sprintf("%v reported IDLE while its replacement %v is not READY yet: no Connect()", slot, slot.pending))
+	}
 	removes := 0
 	var removed *fakeSC
 	for _, e := range w.cc.events {
